@@ -563,6 +563,11 @@ example : ∃ s : State ℚ, s.cls ≠ .snComb ∧ SamplerOK s ∧ 0 < s.o.tempe
 example : (step gq (run gq (initMps gq .mpsChannel { temperature := 1/20 } [[0, 1], [3, 2, 1]] [])
     [.eval]) (.forward [])).theta = [[0, 1], [1, 0, 0]] := by decide +kernel
 
+/-- no temperature threshold: at `T = 1/20` the logits of `(1/2, 2, 3)` are `(10, 40, 60)`; the eval-mode
+sample is the one-hot at the largest raw coefficient, not at the first entry beyond some saturation bound -/
+example : (step gq (run gq (initMps gq .mpsLayer { temperature := 1/20 } [[1/2, 2, 3], [100, -100, 95]] [])
+    [.eval]) (.forward [])).theta = [[0, 0, 1], [1, 0, 0]] := by decide +kernel
+
 example : ∃ s : State ℚ, s.cls = .snComb ∧ SamplerOK s ∧ 0 < s.o.temperature ∧
     s.o.hard = true ∧ s.o.training = false :=
   ⟨run gq (initSn [[0, 1]] true true) [.eval], rfl,
